@@ -66,7 +66,10 @@ _state = {}
 def generate(ctx):
     path, t = gen_c20.generate()
     _state['tables'] = t
-    return [path]
+    # the sign tables of chython/algorithms/stereo.py are anchored by C20 as well (same generator as C12, same file)
+    from ..gen import gen_stereo
+    spath = gen_stereo.generate()[0]
+    return [path, spath]
 
 
 def tables():
@@ -141,6 +144,24 @@ def env_ints(mol):
     for (n, m), (n0, n1, n2, n3) in sc.items():
         out += [n, m, n0, n1, -1 if n2 is None else n2, -1 if n3 is None else n3]
     return out
+
+
+def canon_rmol(text):
+    """`ok RMOL` with the begin/end of every non-dative bond put in ascending order (stereo atoms exchanged with them):
+    RDKit gives a direction meaning only to dative bonds, so the direction of the others is not compared."""
+    if not text.startswith('ok '):
+        return text
+    xs = list(map(int, text.split()[1:]))
+    n = xs[0]
+    i = 1 + 8 * n
+    m = xs[i]
+    dative = tables()['enums']['RdBondType'].index('DATIVE')
+    for k in range(m):
+        o = i + 1 + 6 * k
+        b, e, t, st, s0, s1 = xs[o:o + 6]
+        if t != dative and b > e:
+            xs[o:o + 6] = [e, b, t, st, s1, s0]
+    return 'ok ' + ' '.join(map(str, xs))
 
 
 def line(op, *parts):
@@ -619,8 +640,8 @@ def set_rd_coords(rng, rd):
 # ------------------------------------------------------------------------------------------------
 
 class Stream:
-    def __init__(self, ctx, name):
-        self.ctx, self.name, self.req, self.real, self.meta = ctx, name, [], [], []
+    def __init__(self, ctx, name, canon=None):
+        self.ctx, self.name, self.req, self.real, self.meta, self.canon = ctx, name, [], [], [], canon
 
     def add(self, req, real, meta, nontriv=True):
         self.req.append(req)
@@ -640,6 +661,9 @@ class Stream:
             ctx.broke('correspondence', self.name, f'driver returned {len(model)} lines for {len(self.req)} requests')
             return
         bad = []
+        if self.canon:
+            model = [self.canon(x) for x in model]
+            self.real = [self.canon(x) for x in self.real]
         for q, r, mo, me in zip(self.req, self.real, model, self.meta):
             ctx.dist(f'{self.name}:' + (r if r.startswith('err') else 'ok'))
             if r != mo:
@@ -666,7 +690,8 @@ def correspond(ctx):
     from rdkit import Chem, RDLogger
     RDLogger.DisableLog('rdApp.*')
     ctx.cov['programs'] = 5   # to_rdkit_molecule, from_rdkit_molecule, stereogenic_tetrahedrons, _stereo_cis_trans_centers, stereogenic_cis_trans
-    s_env, s_to, s_from, s_rt, s_edge = (Stream(ctx, n) for n in ('env', 'to', 'from', 'model-round-trip', 'edge'))
+    s_env, s_from, s_rt, s_edge = (Stream(ctx, n) for n in ('env', 'from', 'model-round-trip', 'edge'))
+    s_to = Stream(ctx, 'to', canon_rmol)
     rng = ctx.rng
     for tag, smi in source_smiles(ctx):
         mol = parse(smi)
